@@ -157,6 +157,7 @@ whenever the closest pair is unique.**  In a coherent state with the new value b
 if `_search_in_place_index` answers bin `ib` then `_trim_in_place` stores `mergeAt p` of the inserted list. -/
 theorem inPlace_shape {h h' : Hist K} {v c : K} {idx ib : Nat} {bp bi : K × K} (hc : Coherent h)
     (hd : h.diffs.isSome = true) (h0 : 0 < idx) (hp : h.bins[idx - 1]? = some bp) (hi : h.bins[idx]? = some bi)
+    (hlo : bp.1 < v) (hhi : v < bi.1) (hfp : 0 < bp.2) (hfi : 0 < bi.2) (hcp : 0 < c)
     (hs : searchInPlaceIndex h v idx = .ok (some ib)) (hok : trimInPlace h v c ib = .ok h') :
     ∃ p, (p = idx - 1 ∨ p = idx) ∧ h'.bins = mergeAt p (h.bins.insertIdx idx (v, c)) ∧
       (UniqueClosest (h.bins.insertIdx idx (v, c)) → argminFirst (gaps (h.bins.insertIdx idx (v, c))) = p) ∧
@@ -196,7 +197,8 @@ theorem inPlace_shape {h h' : Hist K} {v c : K} {idx ib : Nat} {bp bi : K × K} 
       have hml := mergeAt_insertIdx_left v c cv cf (idx - 1) h.bins hp2
       have e : idx - 1 + 1 = idx := by omega
       rw [e] at hml
-      rw [hml, (inPlace_centre_eq cv cf v c).1, (inPlace_centre_eq cv cf v c).2.2.1]
+      rw [hb'] at hlo hfp
+      rw [hml, inPlace_stored_left hlo hfp hcp, (inPlace_centre_eq cv cf v c).2.2.1]
     · intro _
       apply argminFirst_eq_of g1
       · intro y hy
@@ -228,7 +230,8 @@ theorem inPlace_shape {h h' : Hist K} {v c : K} {idx ib : Nat} {bp bi : K × K} 
         · rw [k2, g2] at hk; simp only [Option.some.injEq] at hk; rw [← hk]
         · exact le_of_lt (lt_of_lt_of_le hclose (hmall y (grest k y k1 k2 hk)))
     refine ⟨ib, Or.inr rfl, ?_, ?_, hmin', hmax', hcap'⟩
-    · rw [hbins, mergeAt_insertIdx_right v c cv cf ib h.bins hi2, (inPlace_centre_eq cv cf v c).2.1,
+    · rw [hb'] at hhi hfi
+      rw [hbins, mergeAt_insertIdx_right v c cv cf ib h.bins hi2, inPlace_stored_right hhi hfi hcp,
         (inPlace_centre_eq cv cf v c).2.2.2]
     · intro huniq
       apply argminFirst_eq_of g2 hminall
